@@ -5,6 +5,7 @@ go 1.15
 require (
 	github.com/apex/log v1.9.0
 	github.com/c2h5oh/datasize v0.0.0-20200825124411-48ed595a09d2
+	github.com/itchio/go-brotli v0.0.0-20190702114328-3f28d645a45c
 	github.com/richiefi/rrrouter v0.0.0
 	gopkg.in/yaml.v2 v2.3.0
 )
